@@ -76,7 +76,7 @@ inductive AM where
   | AppendDuration | AppendTime | AppendArray | AppendObject | AppendReflected
 deriving DecidableEq, Repr
 
-/-- what an array element call carries (`tok`: identity of an opaque value — complex number, byte slice, marshaler, error) -/
+/-- what an array element call carries (`tok n`: the opaque value with identity `n` — complex number, byte slice, marshaler, error) -/
 inductive EVal where
   | int (v : Int) | bool (b : Bool) | str (s : Bytes) | time (t : Time) | tok (n : Nat)
 deriving DecidableEq, Repr
@@ -87,13 +87,15 @@ structure ACall where
 deriving DecidableEq, Repr
 
 /-- An opaque Go value as far as `Field` is concerned: it travels through `Field.Interface` untouched.
-`dyn` is its dynamic type, `impl` the interfaces it is known to implement, `tok` the identity of the value within its
-type (two boxes of one type denote `==`/DeepEqual-equal values iff they agree on `tok` and `elems`), `cmp` whether Go's
+`dyn` is its dynamic type, `impl` the interfaces it is known to implement, `id` the identity of the value (which Go
+value it is: what a recording encoder can observe), `tok` its equality class within its type (two boxes of one type
+denote `==`/DeepEqual-equal values iff they agree on `tok` and `elems`), `cmp` whether Go's
 `==` is defined on `dyn`, `refl` whether the value equals itself (no NaN, no non-nil func inside), `text` what
 `String()` / `Error()` returns, `elems` what `MarshalLogArray` emits (zap's own slice wrappers). -/
 structure Box where
   dyn : String := ""
   impl : List String := []
+  id : Nat := 0
   tok : Nat := 0
   cmp : Bool := true
   refl : Bool := true
@@ -109,8 +111,8 @@ inductive Payload where
   | time (t : Time)     -- time.Time
 deriving DecidableEq, Repr
 
-def Payload.tok : Payload → Nat
-  | .box b => b.tok
+def Payload.id : Payload → Nat
+  | .box b => b.id
   | _ => 0
 
 /-- `zapcore.Field` -/
